@@ -74,7 +74,12 @@ func (f *Defparameter) Call(s *slip.Scope, args slip.List, depth int) (result sl
 			}
 		}
 	}
-	vv := slip.CurrentPackage.Set(string(name), iv)
+	// As with defvar, pkg::name and pkg:name name a variable of pkg.
+	pkg, vname, private := slip.UnpackName(string(name))
+	if pkg == nil {
+		pkg = slip.CurrentPackage
+	}
+	vv := pkg.Set(vname, iv, private)
 	if 0 < len(doc) {
 		vv.Doc = string(doc)
 	}
